@@ -683,20 +683,28 @@ fn main() {
     // ---- bounded-exhaustive: all sequences of length 2 (thorough: 3) over the request alphabet, n = 1..3
     let alphabet: Vec<Req> = vec![q(None), q(Some(0)), Req::ErrQuery { sql: ERR_SQL[0].0.into(), kind: ERR_SQL[0].1 }, Req::Task { fault: true }, Req::Stats,
         Req::Ingest { rows: 2 }, fl(2, true, false, false), fl(2, false, false, true)];
-    let len = if args.thorough() { 3 } else { 2 };
-    let total = alphabet.len().pow(len as u32);
-    for n in 1..=3usize {
-        for code in 0..total {
-            if !args.thorough() && (code + n + args.seed as usize) % 3 != 0 { continue; }   // quick: a third of the sequences per n (rotating with n and the seed)
-            let mut c = code;
-            let mut reqs = vec![];
-            for _ in 0..len { reqs.push(alphabet[c % alphabet.len()].clone()); c /= alphabet.len(); }
-            run_seq(&mut cases, &Conf { n, ..mem2.clone() }, &reqs, "exh");
+    let mut exh = |len: usize, ns: &[usize], keep: &dyn Fn(usize, usize) -> bool, cases: &mut Cases| {
+        let total = alphabet.len().pow(len as u32);
+        for &n in ns {
+            for code in 0..total {
+                if !keep(code, n) { continue; }
+                let mut c = code;
+                let mut reqs = vec![];
+                for _ in 0..len { reqs.push(alphabet[c % alphabet.len()].clone()); c /= alphabet.len(); }
+                run_seq(cases, &Conf { n, ..mem2.clone() }, &reqs, "exh");
+            }
         }
+    };
+    let seed = args.seed as usize;
+    if args.thorough() {
+        exh(2, &[1, 2, 3], &|_, _| true, &mut cases);                              // all 64 sequences of length 2, n = 1..3
+        exh(3, &[2], &|code, _| (code + seed) % 2 == 0, &mut cases);               // half of the 512 sequences of length 3 (the other half with the next seed)
+    } else {
+        exh(2, &[1, 2, 3], &|code, n| (code + n + seed) % 3 == 0, &mut cases);     // a third of the sequences per n (rotating with n and the seed)
     }
 
     // ---- random sequences with random configurations
-    let nrand = if args.thorough() { 150 } else { 8 };
+    let nrand = if args.thorough() { 60 } else { 8 };
     for _ in 0..nrand {
         let conf = gen_conf(&mut rng);
         let k = 3 + rng.below(6) as usize;
@@ -706,7 +714,7 @@ fn main() {
     }
 
     // ---- concurrent clients
-    let npar = if args.thorough() { 60 } else { 5 };
+    let npar = if args.thorough() { 30 } else { 5 };
     for _ in 0..npar {
         let conf = Conf { n: 1 + rng.below(4) as usize, disk: false, flush_threads: 1, io_threads: 1, cf: 1_000_000 };
         let rounds: Vec<Vec<Req>> = (0..3).map(|_| {
